@@ -74,7 +74,15 @@ type qeSpec struct {
 	Stale     int       `json:"stale,omitempty"`      // restart scenario: requests sent to its subject in the NEXT run
 }
 
+// connEv is a call made while query events are active that must leave them alone: the handlers the service
+// installs on the connection for reconnects and disconnects, and the reset calls.
+type connEv struct {
+	At   string `json:"at"`   // after-create after-early mid-expire (of every batch)
+	What string `json:"what"` // reconnect disconnect resetall reset tokenreset
+}
+
 type scenario struct {
+	ConnEvs []connEv `json:"conn_events,omitempty"`
 	Kind    string   `json:"kind"` // directed racy shutdown history
 	Workers int      `json:"workers"`
 	QEs     []qeSpec `json:"qes"`
@@ -100,6 +108,9 @@ type genRef struct {
 
 func (r *runner) desc(qe int) map[string]interface{} {
 	d := map[string]interface{}{"gen": r.sc.Gen, "kind": r.sc.Kind, "query_events": len(r.sc.QEs), "workers": r.sc.Workers}
+	if len(r.sc.ConnEvs) > 0 {
+		d["calls_while_query_events_active"] = r.sc.ConnEvs
+	}
 	if qe >= 0 && qe < len(r.sc.QEs) {
 		q := r.sc.QEs[qe]
 		ph := ""
@@ -520,6 +531,7 @@ type gateEv struct {
 	k       int
 	rel     chan int
 	creator uint64 // query-expire: the goroutine that started this timer goroutine
+	at      time.Time
 }
 
 // creatorGid returns the id of the goroutine that started the calling goroutine ("created by ... in goroutine N").
@@ -557,8 +569,11 @@ type qeState struct {
 	sentJ   []int // request indices already sent
 	run     int
 	cn      *conn
-	staleN  []int // numbers of the stale requests addressed to its subject in a later run
-	rdvN    int32 // callbacks that rendezvous (requests whose script contains "rdv")
+	staleN  []int     // numbers of the stale requests addressed to its subject in a later run
+	subAt   time.Time // ChanSubscribe returned
+	expAt   time.Time // queryEventExpire was entered for it (gate query-expire reached)
+	within  []int     // requests accepted into the channel less than the query duration after subAt
+	rdvN    int32     // callbacks that rendezvous (requests whose script contains "rdv")
 	rdvIn   int32
 	rdvCh   chan struct{}
 }
@@ -585,6 +600,7 @@ type runner struct {
 	served            chan struct{} // closed when the current Serve call has returned
 	settleTimeouts    int
 	rdvOK, rdvTimeout int32
+	connDone          []chan struct{}
 	impl              []ImplViolation
 	stalled           bool
 	aborted           bool
@@ -652,6 +668,7 @@ func (c *conn) ChanSubscribe(subject string, ch chan *nats.Msg) (*nats.Subscript
 		}
 		q.ch = ch
 		q.subOK = true
+		q.subAt = time.Now()
 		c.r.add(entry{kind: "sub", k: q.k, ok: true})
 		return &nats.Subscription{}, nil
 	}
@@ -687,6 +704,7 @@ func (r *runner) gate(pt string) {
 		r.add(entry{gid: ev.gid, kind: pt})
 	} else {
 		ev.creator = creatorGid()
+		ev.at = time.Now()
 	}
 	r.events <- ev
 	k := <-ev.rel
@@ -734,6 +752,9 @@ func (r *runner) classify(ev *gateEv) {
 		if run >= 0 && r.expNext[run] < len(r.expSeq[run]) {
 			ev.k = r.expSeq[run][r.expNext[run]]
 			r.expNext[run]++
+			if q := r.qes[ev.k]; q.expAt.IsZero() {
+				q.expAt = ev.at
+			}
 		} else {
 			r.violation("harness", "expiry of an unknown query event")
 		}
@@ -807,6 +828,9 @@ func (r *runner) send(q *qeState, j int) bool {
 	r.log = append(r.log, entry{gid: g, kind: "arrive", k: q.k, j: j, ok: acc})
 	r.mu.Unlock()
 	q.sentJ = append(q.sentJ, j)
+	if acc && time.Since(q.subAt) < queryDuration {
+		q.within = append(q.within, j) // the send completed inside the configured duration: the query event must still be active
+	}
 	return acc
 }
 
@@ -1102,6 +1126,44 @@ func (r *runner) reqsOf(q *qeState, phase string) []int {
 	return js
 }
 
+// connEvents makes the calls scripted for this point.  Each runs on a goroutine of its own: an implementation
+// that expires query events from inside such a call reaches the gate query-expire there, which only the
+// director can release.
+func (r *runner) connEvents(at string) {
+	for _, ce := range r.sc.ConnEvs {
+		if ce.At != at || r.shut {
+			continue
+		}
+		done := make(chan struct{})
+		r.connDone = append(r.connDone, done)
+		s, what := r.s, ce.What
+		go func() {
+			defer close(done)
+			defer func() {
+				if v := recover(); v != nil {
+					r.violation("panic", fmt.Sprintf("%s panicked: %v", what, v))
+				}
+			}()
+			switch what {
+			case "reconnect":
+				s.VerifHandleReconnect()
+			case "disconnect":
+				s.VerifHandleDisconnect()
+			case "resetall":
+				s.ResetAll()
+			case "reset":
+				s.Reset([]string{"test.>"}, []string{"test.>"})
+			default:
+				s.TokenReset("test.auth.reset", "tid1", "tid2")
+			}
+		}()
+		select {
+		case <-done:
+		case <-time.After(20 * time.Millisecond):
+		}
+	}
+}
+
 // expire handles the expiry of query event q under the director's control.
 func (r *runner) expire(q *qeState) {
 	ev := r.await(func(e *gateEv) bool { return e.pt == "query-expire" && e.k == q.k }, 3*time.Second)
@@ -1170,6 +1232,7 @@ func (r *runner) runDirected() {
 		for _, q := range batch {
 			r.create(q)
 		}
+		r.connEvents("after-create")
 		for _, q := range batch {
 			if !q.subOK {
 				continue
@@ -1192,11 +1255,15 @@ func (r *runner) runDirected() {
 				}
 			}
 		}
+		r.connEvents("after-early")
 		if sc.Kind == "shutdown" && b == sc.ShutAt {
 			r.settle(time.Second)
 			r.shutdown()
 		}
-		for _, q := range batch {
+		for i, q := range batch {
+			if i == (len(batch)+1)/2 {
+				r.connEvents("mid-expire")
+			}
 			if q.subOK {
 				r.expire(q)
 			}
@@ -1382,6 +1449,9 @@ func (r *runner) runRacy() {
 				}
 				r.log = append(r.log, entry{gid: g, kind: "arrive", k: q.k, j: j, ok: acc})
 				r.mu.Unlock()
+				if acc && time.Since(q.subAt) < queryDuration {
+					q.within = append(q.within, j)
+				}
 			}
 		}(q)
 		deadline := time.Now().Add(3 * time.Second)
@@ -1417,6 +1487,14 @@ func (r *runner) runRacy() {
 }
 
 func (r *runner) finish() {
+	for _, d := range r.connDone {
+		select {
+		case <-d:
+		case <-time.After(3 * time.Second):
+			r.violation("stall", "a reconnect/disconnect handler or reset call did not return")
+		}
+	}
+	r.connDone = nil
 	// release anything still held so that no goroutine of the service stays blocked in a gate
 	atomic.StoreInt32(&r.passive, 1)
 	for _, ev := range r.parked {
@@ -1915,8 +1993,17 @@ func (r *runner) convert() []Case {
 		for _, n := range q.staleN {
 			stale = append(stale, List(stalePubs[n]))
 		}
-		term := fmt.Sprintf("QC (Cfg %s %s) %s %s %s %d %s %s %d %s %s", Bool(q.spec.Res != "p"), ty, List(c.labels), List(c.calls),
-			List(resps), c.npub, Bool(c.exited), Bool(complete), subj, List(prev), List(stale))
+		life := "None"
+		if q.subOK && !q.expAt.IsZero() {
+			life = fmt.Sprintf("(Some %d)", q.expAt.Sub(q.subAt)/time.Microsecond)
+		}
+		var within []string
+		for _, j := range q.within {
+			within = append(within, strconv.Itoa(j))
+		}
+		term := fmt.Sprintf("QC (Cfg %s %s) %s %s %s %d %s %s %d %s %s %d %s %s", Bool(q.spec.Res != "p"), ty, List(c.labels), List(c.calls),
+			List(resps), c.npub, Bool(c.exited), Bool(complete), subj, List(prev), List(stale),
+			queryDuration/time.Microsecond, life, List(within))
 		tags := []string{r.sc.Kind}
 		if q.spec.FailSub {
 			tags = append(tags, "failed-sub")
@@ -2051,6 +2138,9 @@ func runScenario(sc scenario) result {
 	out.Impl = r.impl
 	d := out.Dist
 	d["scenario-"+sc.Kind]++
+	for _, ce := range sc.ConnEvs {
+		d["while-active-"+ce.What]++
+	}
 	if n := atomic.LoadInt32(&r.rdvOK); n > 0 {
 		d["parallel-callbacks-overlapping"] += int(n)
 	}
@@ -2297,6 +2387,12 @@ func generate(o Opts) []scenario {
 			sc.ShutAt = rng.Intn(len(sc.Batches))
 		}
 		fixNested(&sc)
+		if rng.Chance(40) {
+			for c := 1 + rng.Intn(3); c > 0; c-- {
+				sc.ConnEvs = append(sc.ConnEvs, connEv{At: rng.Pick([]string{"after-create", "after-create", "after-early", "mid-expire"}),
+					What: rng.Pick([]string{"reconnect", "reconnect", "disconnect", "resetall", "reset", "tokenreset"})})
+			}
+		}
 		scs = append(scs, sc)
 	}
 	for i := 0; i < nRacy; i++ {
@@ -2512,7 +2608,8 @@ func main() {
 			"the query sent in the request, restart histories on ONE service object (run 0 with query events of which some expire and some are still active at Shutdown, "+
 			"Serve again on a fresh connection object, run 1 with new query events, requests published on the subjects of run 0, the old query "+
 			"events expiring inside the restarted service: all subjects over the whole history pairwise distinct, nothing answers a stale request), "+
-			"Parallel resources with 2-4 request callbacks of one query event made to overlap (they wait for each other, then re-read Query()/ParseQuery()), "+
+			"the service's reconnect/disconnect handlers and ResetAll/Reset/TokenReset called while query events are active (no expiry before the "+
+			"configured duration, requests accepted within the duration answered), Parallel resources with 2-4 request callbacks of one query event made to overlap (they wait for each other, then re-read Query()/ParseQuery()), "+
 			"model/collection/untyped/grouped/Parallel resources (Parallel excluded from the ordering claim), query events created "+
 			"with Service.With and from call handlers; two histories of 200 (quick) / 2,000 (thorough) expired query events - scripted Conn: goroutine "+
 			"count and goroutine profile back to the baseline, callbacks = requests taken; real nats.go connection to an embedded nats-server with a "+
